@@ -828,6 +828,34 @@ def check_forest_order(rep, prog):
     return n
 
 
+def check_wire_root(rep, prog):
+    """R04i: a candidate travels as (root vertex, edge index) and every rank rebuilds the tree at that root: the root sent must be the
+    source of the tree the candidate belongs to.  The tree *number* is not a vertex: for the feedback-vertex-set collection tree i is rooted
+    at the i-th vertex chosen by greedy_fvs, not at vertex i."""
+    what = 'the root sent with a candidate is the source vertex of the tree it was built from'
+    n = 0
+    for fn in prog.functions:
+        if fn.implicit or fn.body is None or 'CandidateCycleToSerializableConverter::operator()' not in fn.g:
+            continue
+        for c in fn.walk():
+            if c.k in ex.CTOR_KINDS and c.callee and c.callee.get('ctor') and 'SerializableCandidateCycle' in (c.callee.get('rec') or '') and len(c.c) >= 2:
+                n += 1
+                root = c.c[0]
+                calls = [x for x in [root.strip_all()] + list(root.walk()) if x.k == 'CXXMemberCallExpr' and x.callee]
+                via_source = any(x.callee['name'] == 'source' and 'SPTree' in ((prog.base_type(x.object_arg().strip_all().j.get('t')) or {}).get('canon') or '')
+                                 for x in calls if x.object_arg() is not None)
+                uses_tree_no = any(x.callee['name'] == 'tree' for x in calls)
+                if via_source and uses_tree_no:
+                    rep.ok('R04i', c, fn, what, 'trees[cycle.tree()].source()')
+                elif uses_tree_no and not via_source:
+                    rep.violation('R04i', c, fn, what, 'the root is computed as `%s` from the tree number alone: tree i is rooted at vertex i only for the collections that build a '
+                                  'tree per vertex; the FVS collection roots tree i at the i-th feedback vertex, so every rank rebuilds its trees at the wrong '
+                                  'vertices' % root.text(40), key='R04i|%s|root' % fn.g)
+                else:
+                    rep.undecided('R04i', c, fn, what, 'root expression `%s` not recognised' % root.text(40))
+    return n
+
+
 def run(rep, tier):
     rep.rule('R04a', 'collective matching', floor=5)
     rep.rule('R04b', 'no rank-dependent exit in functions with collectives', floor=3)
@@ -842,6 +870,8 @@ def run(rep, tier):
     rep.rule('R04f', 'wire format completeness', floor=3)
     rep.rule('R04m', 'MPI min operator', floor=1)
     rep.rule('R16e', 'forest index order is address-free', floor=1)
+    rep.rule('R02d', 'every rank builds its first-found lookup over a share it has sorted itself', floor=1)
+    rep.rule('R04i', 'candidates are sent with the root vertex of their tree, not with the tree number', floor=1)
     tus = [env.witness_tu()]
     if tier == 'thorough':
         tus += [t for t in env.demo_tus() if 'mpi' in os.path.basename(t)]
@@ -867,6 +897,10 @@ def run(rep, tier):
         phase.report(rep, F, ['R01d'])
         # the support-vector update of the MPI siblings (shared with C01): rank 0 must orthogonalise against the cycle it emits
         phase.report(rep, [f_ for f_ in F if f_[0] == 'R01b' and '/mpi/' in getattr(f_[2], 'file', '')], ['R01b'])
+        # the first-found lookup of every rank runs over its own share of the candidates: that share must be sorted where the lookup is built
+        # (the received pairs are regrouped per root, so a globally sorted sequence does not arrive sorted) - shared with C02
+        phase.report(rep, [f_ for f_ in F if f_[0] == 'R02d' and '/mpi/' in getattr(f_[2], 'file', '')], ['R02d'])
+        check_wire_root(rep, prog)
     pos = os.path.join(env.WITNESS, 'positive', 'c04_mpi.cc')
     try:
         pp = env.extract([pos], 'full', ('first:-I' + os.path.join(env.WITNESS, 'positive', 'broken_include'),))[pos]
